@@ -267,7 +267,11 @@ GENERIC = ["", "none", "None", "0", "1", "-1", "00", "+5", "1_0", " 7 ", "1.5", 
            "http://x/%41?a=b&c=d", "https%3A%2F%2Fx%2F", "bbb_a1", "bbb_v1", "eng", "und"]
 
 INT_EDGE = ["0", "1", "-1", "2", "30", "60", "1800", "86400", "2147483647", "2147483648", "4294967296",
-            "9007199254740993", "99999999999", "999999999999999", "9" * 30, "-2", "-99999999999", "-" + "9" * 30]
+            "9007199254740993", "99999999999", "999999999999999", "9" * 30, "-2", "-99999999999", "-" + "9" * 30,
+            # both signs of the 32-bit boundaries and of the limits check_option_values applies
+            "-30", "-1800", "-86400", "-2147483647", "-2147483648", "-2147483649", "-4294967295", "-4294967296",
+            "4294967295", "3000000000", "-3000000000", "3162240000", "-3162240000", "3162240001", "-3162240001",
+            "5000000", "5000001", "-5000000", "10000", "10001", "65535", "65536", "-65536", "400000000", "-400000000"]
 
 
 def all_option_names() -> list:
@@ -356,6 +360,9 @@ def gen_query(rng, names: list, pool: dict, n_max: int = 4, kinds: dict | None =
         q.append(["failures", rng.choice(["0", "1", "2", "-1", "none", "x"])])
     if q and rng.random() < .25:
         q.append(["events", rng.choice(["ping", "scte35", "ping,scte35"])])
+    if any(k == "depth" for k, _ in q) and rng.random() < .5:
+        # the time shift buffer is listed segment by segment in a SegmentTimeline
+        q += [["timeline", "1"], ["start", rng.choice(["epoch", "year", "2000-01-01T00:00:00Z"])]]
     return q
 
 
